@@ -89,6 +89,14 @@ partial def parseTree : List String → Option (T × List String)
   | "imagpart" :: n :: r => do pure (.imagpart (← n.toNat?), r)
   | "cembed" :: n :: a :: b :: r => do
       pure (.cembed (← n.toNat?) (← parseRat a) (← parseRat b), r)
+  | "clscal" :: n :: a :: b :: r => do
+      let n ← n.toNat?; let a ← parseRat a; let b ← parseRat b
+      let (o, r) ← parseTree r
+      pure (.clscal n o a b (-b), r)
+  | "crscal" :: n :: a :: b :: r => do
+      let n ← n.toNat?; let a ← parseRat a; let b ← parseRat b
+      let (o, r) ← parseTree r
+      pure (.crscal n o a b (-b), r)
   | "dnil" :: r => pure (.dnil, r)
   | "dcons" :: r => do
       let (a, r) ← parseTree r; let (b, r) ← parseTree r
